@@ -67,7 +67,7 @@ class CallMixin:
         return super().lookup_name(name, st)
 
     SPEC_BUILTINS = ("implies", "iff", "ite", "dom", "is_none", "some", "has_class", "lang_re", "in_re", "select", "to_real", "str_at",
-                     "card_int", "is_int", "card_val", "seq_eq", "dict_eq_on", "fresh_obj", "alloc", "is_alloc", "heap_eq", "str_len", "str_from_int")
+                     "ext_const", "bn", "select_eq", "card_int", "is_int", "card_val", "seq_eq", "dict_eq_on", "fresh_obj", "alloc", "is_alloc", "heap_eq", "str_len", "str_from_int")
 
     def builtin(self, st, name, args, kwargs, node):
         a = args
@@ -249,7 +249,7 @@ class CallMixin:
             c = self.find_contract(qual)
             if c is None: raise VCError("call to external %s without assumed contract" % qual)
             bound = dict(zip(c.params.keys(), args)); bound.update(kwargs)
-            yield from self.contract_call(st, c, None, bound, node); return
+            yield from self.contract_call(st, c, self_sv, bound, node); return
         try:
             m, cname, fnode = X.find_function(qual)
         except X.ExtractionError as e:
@@ -289,6 +289,8 @@ class CallMixin:
         if depth >= MAX_INLINE_DEPTH: raise VCError("inline depth exceeded at %s" % dq)
         callee = st.fork()
         callee.env = dict(kwargs)
+        for g in ("__trace__", "__bn__", "__yielded_outer__"):
+            if g in st.env: callee.env[g] = st.env[g]
         if self_sv is not None: callee.env["self"] = self_sv
         callee.env["__depth__"] = depth + 1
         cq = None
@@ -300,7 +302,9 @@ class CallMixin:
         self.inlined.add(dq)
         body = fnode.body
         for kind, s2, val in self.exec_block(body, callee):
-            back = s2.fork(); back.env = st.env; back.ctx = st.ctx
+            back = s2.fork(); back.env = dict(st.env); back.ctx = st.ctx
+            for g in ("__trace__", "__bn__"):
+                if g in s2.env: back.env[g] = s2.env[g]
             if kind in ("fall", "return"):
                 yield back, (val if val is not None else SV(T.NoneT, z3.BoolVal(True)))
             elif kind == "raise":
@@ -337,6 +341,7 @@ class CallMixin:
             g = self.spec_eval(r, pre, c)
             self.oblige(st, g, "precondition:%s:%s" % (c.qual.split(":")[-1], r[:60]), node)
         self.called.add(c.qual)
+        self.apply_effects(st, c, pre)
         post = st    # mutate in place: havoc frame
         oldsnap = st.fork(); oldsnap.env = dict(spec_env)
         self.havoc_frame(post, c, spec_env, oldsnap)
@@ -349,6 +354,7 @@ class CallMixin:
             result = SV(c.returns, fresh("res_" + c.qual.split(".")[-1].split(":")[-1], c.returns))
             if isinstance(c.returns, T.Obj):
                 pass
+        if "__bn__" in pre.env: env2["__bn__"] = pre.env["__bn__"]
         pst = post.fork(); pst.env = env2; pst.old = oldsnap
         if result is not None: pst.env["result"] = result
         # exceptional outcomes
@@ -377,6 +383,31 @@ class CallMixin:
             outs = new_outs
         for o in outs:
             yield o, (result if result is not None else SV(T.NoneT, z3.BoolVal(True)))
+
+    def trace_seq(self, c, env_state):
+        """expected event sequence of contract c evaluated in env_state (which carries __bn__)"""
+        ety = R.TRACE["elem"]; ssort = z3.SeqSort(T.sort_of(ety))
+        seq = z3.Empty(ssort)
+        for e in (c.emits or []):
+            d = self.spec_eval(e, env_state, c, want=None)
+            if d.ty != Display or len(d.t) not in (len(ety.ts), len(ety.ts) + 1): raise VCError("emits entry must be a %d- or %d-tuple: %s" % (len(ety.ts), len(ety.ts) + 1, e))
+            parts = d.t
+            guard = None
+            if len(parts) == len(ety.ts) + 1: guard, parts = self.truth(parts[0]), parts[1:]
+            ev = T.tup_mk(ety, *[self.coerce(x, t).t for x, t in zip(parts, ety.ts)])
+            unit = z3.Unit(ev)
+            seq = z3.Concat(seq, unit if guard is None else z3.If(guard, unit, z3.Empty(ssort)))
+        return seq
+
+    def apply_effects(self, st, c, pre):
+        if "__trace__" not in st.env: return
+        if c.emits is None and c.bnodes is None: return
+        pre.env["__bn__"] = st.env["__bn__"]
+        if c.emits:
+            st.env["__trace__"] = SV(st.env["__trace__"].ty, z3.Concat(st.env["__trace__"].t, self.trace_seq(c, pre)))
+        if c.bnodes:
+            n = self.spec_eval(c.bnodes, pre, c, want=None)
+            st.env["__bn__"] = SV(T.Int, st.env["__bn__"].t + n.t)
 
     def havoc_frame(self, st, c, spec_env, oldsnap):
         for item in c.modifies:
